@@ -11,16 +11,16 @@ CHECKS = {
          "Every path of the bounded step-sequence ladders (plus every filter atom and pairwise combination under $.c) is rendered, parsed by the real Parse and evaluated on every JSON document up to the node bound, on wide two-level documents (also with shared containers) and on member documents, in both decodings; values, order and multiplicity must equal the reference model's, and the call must fail exactly when the model selects nothing. Coverage is total inside the bound and silent outside it.",
          "Trusted: the reference model h/spec (transcribes DESIGN.md Appendix A), the renderer, Go's reflect/encoding/json. Cases the property statements leave open are skipped and counted.", "DESIGN.md §4 C01"),
  "C03": ("E-ENUM", "model_checking", "bounded-exhaustive enumeration of path programs x documents with an invariant checked on every execution",
-         "The same bounded product as C01; on every execution the invariant 'no panic; non-empty result xor nil slice with one of the three documented runtime error types; ErrorFunctionFailed only if a user function failed; never an empty success' is evaluated.",
+         "The same bounded product as C01; on every execution the invariant 'no panic; non-empty result xor nil slice with one of the three documented runtime error types; ErrorFunctionFailed only if a user function failed; never an empty success' is evaluated; paths whose user function calls back into the library are also evaluated through the one-shot Retrieve (a call that never returns is caught by the per-case watchdog).",
          "Trusted: the harness's recover wrapper and the recording user functions. Integer-boundary subscripts are covered by C11, non-JSON values by C20.", "DESIGN.md §4 C03"),
  "C15": ("E-ENUM", "model_checking", "bounded-exhaustive enumeration of failing (path, document) pairs against the reference model's candidate set",
          "For every failing pair of the C01 product the reported error (type and full text: step as written, expected kind, found Go type) must be one of the failures the model records at the deepest failing position, a missing member or failed function outranking a type mismatch; for single-valued paths that set is a singleton, so the comparison is exact.",
          "Trusted: the reference model's failure bookkeeping and the renderer's per-step text.", "DESIGN.md §4 C15"),
  "C11": ("E-ENUM", "model_checking", "complete enumeration of the small slice/index space plus integer-boundary cross product against a big-integer Python-slice model (itself recomputed by python3)",
-         "All start/end/step in {omitted} U [-7..7] on lengths 0..6 and every combination of integer-boundary magnitudes are evaluated, alone, inside a union, after recursive descent and nested (every pair of 216 small slices on arrays of arrays); the selected elements must equal Python's slice semantics, no index may fall outside the array, and integers outside the int range must be rejected by Parse with ErrorInvalidArgument. The small space is covered completely, not sampled.",
+         "All start/end/step in {omitted} U [-7..7] on lengths 0..6 and every combination of integer-boundary magnitudes are evaluated, alone, inside a union, after recursive descent and nested (every pair of 216 small slices on arrays of arrays); the selected elements must equal Python's slice semantics, no index may fall outside the array, and integers outside the int range must be rejected by Parse with ErrorInvalidArgument. The small space is covered completely, not sampled; arrays of 9..130 elements, bounds spelled -0 / +1 / 01 and unions starting with an index (with emptied pools) extend it.",
          "Trusted: spec.PySlice (cross-checked against the real python3 over the whole table on every run), arrays holding their own indices.", "DESIGN.md §4 C11"),
  "C12": ("E-ENUM", "exploration", "bounded-exhaustive enumeration with a relational oracle between two runs of the implementation (plain vs accessor mode)",
-         "Every path of the ladders (functions after every step kind and inside filter operands) is parsed twice, with and without accessor mode, with identical recording function sets, and evaluated on every document of the bound; result count, Get() values, error type/text and the recorded function arguments must coincide.",
+         "Every path of the ladders (functions after every step kind and inside filter operands) is parsed twice, with and without accessor mode, with identical recording function sets, and evaluated on every document of the bound; result count, Get() values, error type/text and the recorded function arguments must coincide, and reading the accessors must not call user functions.",
          "Trusted: the recording wrappers; no reference model is involved.", "DESIGN.md §4 C12"),
  "C13": ("E-ENUM", "model_checking", "bounded-exhaustive enumeration of paths x documents x result index; location oracle from the reference model, structural diff after every Set",
          "For every accessor of every result, after an unrelated accessor-mode retrieval has been made in between: Get() equals the selected value; Set(sentinel) makes exactly the model's (container,key|index) hold the sentinel and leaves the rest of the document equal to an untouched copy; Get() then returns it; an in-place update of the location is seen by Get(); Set is nil exactly for the root and function outputs.",
@@ -29,7 +29,7 @@ CHECKS = {
          "Every navigation prefix of the bound is followed by every sequence of 1..3 functions out of {f, id, e, g, cnt, eg}, each occurrence under its own alias; values, errors (deepest failing step, ErrorFunctionFailed naming a failed function) and the per-occurrence call log (argument, order, count) must equal the model's.",
          "Trusted: the reference model's function protocol (Appendix A.2), the recording wrappers. Relative order of calls of different occurrences is not compared.", "DESIGN.md §4 C14"),
  "C20": ("E-ENUM", "model_checking", "bounded-exhaustive enumeration of documents with one or two leaves replaced by each of 24 non-JSON Go values x all short paths, against the reference model",
-         "Every short path (all comparison atoms, functions) is evaluated on every small document in which one leaf (or the root, or two leaves) is replaced by a non-JSON value; the model treats such a value as an opaque scalar, so values, failure and the ErrorTypeUnmatched text naming the Go type must agree, and nothing may panic.",
+         "Every short path (all comparison atoms, functions) is evaluated on every small document in which one leaf (or the root, or two leaves) is replaced by one of 28 non-JSON values (typed maps / slices / scalars, structs, pointers, typed nils, functions, channels, NaN, +Inf, odd json.Numbers); the model treats such a value as an opaque scalar, so values, failure and the ErrorTypeUnmatched text naming the Go type must agree, and nothing may panic.",
          "Trusted: the reference model (no special case for non-JSON values), identity comparison for reference kinds.", "DESIGN.md §4 C20"),
  "C04": ("E-ENUM", "exploration", "bounded-exhaustive enumeration of filter-heavy paths x documents x {plain, accessor}; invariant (deep snapshot before = after) checked on every execution",
          "Every atom, every pairwise && / || combination and depth-3 shape of the filter alphabet is placed as a filter in 8 positions, plus all short paths of every step kind; after every call, successful or not, in plain and accessor mode and in both decodings, the caller's document - and the document of the previous call, to catch recycled buffers that alias caller memory - is compared structurally with an untouched copy; every array of the working documents has spare capacity that must stay untouched, and every user function the retrieval calls compares the document with the copy at that moment.",
@@ -41,16 +41,16 @@ CHECKS = {
          "All comparison, existence and regex atoms, their pairwise && / || combinations and depth-3 shapes are evaluated on arrays and objects of 0..6 pairwise-distinct members that hit, miss or mistype the operand paths; selections are read back as position sets and must satisfy intersection, union, complement (!path, !=), mirrored-operand, <=/>= = strict ∪ ==, and parenthesis laws, in container order.",
          "Trusted: reading a result back as positions (members are pairwise distinct by construction); no reference model.", "DESIGN.md §4 C09"),
  "C10": ("E-ENUM", "model_checking", "complete enumeration of comparison atoms x operand values of every JSON type x decodings against the model's type-strict table, plus float64-vs-json.Number relational oracle",
-         "Every atom is applied to members whose @.a/@.b and root $.a/$.b take every value of the type alphabet (absent, numbers in several spellings, strings, booleans, null, object, array); the selection must equal the type-strict model in both decodings, and the json.Number decoding of the same JSON text must select the same members as the float64 decoding.",
+         "Every atom is applied to members whose @.a/@.b and root $.a/$.b take every value of the type alphabet (absent, numbers in several spellings, strings, booleans, null, object, array); the selection must equal the type-strict model in both decodings, and the json.Number decoding of the same JSON text must select the same members as the float64 decoding. String literals (chunk alphabet with quotes, backslashes, non-ASCII; both quote styles; plain and anchored regular expressions) and 15 unusual spellings of a number literal are covered in the same way.",
          "Trusted: the reference model's comparison table (Appendix A.3); non-shortest number spellings are excluded only where two paths are compared with == / != (as the property allows).", "DESIGN.md §4 C10"),
  "C16": ("E-ENUM", "exploration", "bounded-exhaustive enumeration of keys over a 41-chunk alphabet x spellings x positions x near-miss sibling sets against direct map lookup",
-         "Every key of up to 3 chunks (all ASCII symbol classes, controls, 2/3/4-byte characters, escape-like literal texts) is looked up in 5-7 spellings (minimal and full \\uXXXX escaping in both quote styles, dot notation with escapes, lone surrogates) at the root, after .., as a filter operand and between two steps, alone and among siblings that differ only by escape characters; exactly the member's value must come back.",
+         "Every key of up to 3 chunks (all ASCII symbol classes, controls, 2/3/4-byte characters, escape-like literal texts) is looked up in 5-7 spellings (minimal and full \\uXXXX escaping in both quote styles, dot notation with escapes, lone surrogates) at the root, after .., as a filter operand, compared with a string literal of the same raw text, and between two steps, alone and among siblings that differ only by escape characters; exactly the member's value must come back.",
          "Trusted: Go map lookup as the oracle, the harness's own escapers.", "DESIGN.md §4 C16"),
  "C18": ("E-ENUM", "exploration", "bounded-exhaustive enumeration of path ASTs x every spelling deviating at one (thorough: two) optional sites x documents, relational oracle canonical vs variant",
          "For every path AST of the bound every spelling that differs from the canonical one at one (thorough: two) optional site(s); spellings that omit the leading $ are also compared in accessor mode; sites: (spaces at each position the grammar allows, quote style, +/leading zeros, dot vs bracket, .* vs [*], omitted $) is parsed and evaluated on every document; values must be equal, or errors of the same type naming the same step.",
          "Trusted: the renderer's list of optional sites (derived from jsonpath.peg by hand), the mapping of error texts to step indices.", "DESIGN.md §4 C18"),
  "C02": ("E-ENUM", "exploration", "bounded-exhaustive enumeration of strings (token sequences, grammar sentences, all one-token mutants, pumped sentences, the suite's paths) x configs, each Parse in an isolated worker process; totality invariant on every execution",
-         "Every string of the enumerated sets is parsed with and without registered functions/accessor mode inside crash-isolated single-threaded workers (a fatal stack overflow is attributed to the single responsible string); Parse must return, and yield exactly one of (function, nil) or (nil, one of the four documented error types); an accepted function is called on three documents and must not panic.",
+         "Every string of the enumerated sets is parsed with no Config, with registered functions + accessor mode, and with two Config arguments, inside crash-isolated single-threaded workers (a fatal stack overflow is attributed to the single responsible string); Parse must return, and yield exactly one of (function, nil) or (nil, one of the four documented error types); an accepted function is called on three documents and must not panic.",
          "Trusted: the worker supervision (per-case progress word in shared memory, 60 s watchdog). Strings outside the enumerated sets are not covered.", "DESIGN.md §4 C02"),
  "C17": ("E-ENUM", "model_checking", "bounded-exhaustive enumeration of strings; the model is jsonpath.peg itself, executed by an independent PEG interpreter plus an action model; every predicted trace is compared with the generated parser",
          "For every string of the C02 sets the grammar file is interpreted with pure PEG semantics, the surviving actions are replayed in order through an action model that raises the documented restrictions, and the library must accept exactly when the model accepts, raise the same error class (first in action order) and produce the same error text: position = character offset of the longest accepted prefix, near = the rest of the path from that character.",
@@ -62,7 +62,7 @@ CHECKS = {
          "About 210 hand-written two- and three-thread drivers (shared parsed functions on outcome-flipping documents, Parse||Parse over failing and succeeding paths and configs, Parse||call, two functions on one document, two operations per thread) and about 1.7k generated ones (one per short ladder path: both calls succeed on containers of different sizes, or both fail with different found types; leaves of Go types the process has never seen; a 70-member object or 70/90-element arrays first) are explored over every schedule with <=1 deviation at every scheduling point and <=2 at coarse points for the hand-written ones (thorough: 2 / 3); every call must return its run-alone result, no deadlock or panic, shared documents and functions intact afterwards. The same bodies run free under the race detector with 2..24 goroutines, and every short path is evaluated by three goroutines at once on one document object for every small, wide and big document (any write to caller data is a race).",
          "Trusted: scheduling points (lock/pool operations and every named function entry, inserted mechanically) are sufficient only together with the race pass, which is a sampled happens-before detector. More than 3 threads and weak-memory effects are outside the exhaustive part.", "DESIGN.md §4 C06, Appendix B"),
  "C07": ("E-HIST", "model_checking", "exhaustive enumeration of map iteration orders (owned by the explorer through the instrumented build) x documents with adversarial keys x paths, against the reference model's order",
-         "For 16 paths with wildcard, filter, recursive, multi-name and aggregate steps and every object over 2..4-key subsets of 12 adversarial keys (plus 5..12-key objects and documents with shared containers), every iteration order at one (thorough: two) of the map ranges executed is explored, also after evaluations on maps of other sizes (pool recycling, pool answers enumerated) and after editing the same map in place; the result sequence must equal the model's in every execution.",
+         "For 16 paths with wildcard, filter, recursive, multi-name and aggregate steps and every object over 2..4-key subsets of 12 adversarial keys (plus 5..12-key objects, keys that are not valid UTF-8 and documents with shared containers), every iteration order at one (thorough: two) of the map ranges executed is explored, also after evaluations on maps of other sizes (pool recycling, pool answers enumerated) and after editing the same map in place; the result sequence must equal the model's in every execution.",
          "Trusted: vinstr's rewriting of every range over a string-keyed map (it reports ranges it cannot control), the reference model's ascending byte order.", "DESIGN.md §4 C07"),
  "C19": ("E-HIST", "model_checking", "exhaustive exploration of Parse call histories (depth-bounded, no deduplication) plus explicit-state BFS on a canonical hash of all package globals to a fixpoint; references from fresh subprocesses",
          "Every history of up to 3 (thorough 4; later operations from a core alphabet) operations over about 250 Parse operations (23 paths: plain / root omitted / failing at every action / failing inside a filter parameter / longer than 64, 128 and 1024 bytes / empty, x configs: none, {f}, {g}, {f'}, accessor, all, a shared object, two Config arguments, a by-value copy modified after copying, a caller-owned Config slice), 'rebind f in a used Config' and 're-call an earlier function' is replayed; every outcome - exact error, or behavioural fingerprint of the returned function plus the outcome of the one-shot Retrieve with the same arguments - must equal the same operation performed first in a fresh process. A breadth-first search over the hashed global state reaches a fixpoint. A mismatch is reduced, in fresh processes, to a short operation sequence that reproduces it.",
